@@ -124,7 +124,12 @@ class IndividualAddress(BaseAddress):
             self.raw = address.raw
         elif isinstance(address, str):
             if address.isdecimal():
-                self.raw = int(address)
+                try:
+                    self.raw = int(address)
+                except ValueError as err:  # more digits than int() converts
+                    raise CouldNotParseAddress(
+                        address, message="Address out of range (0..65535)"
+                    ) from err
             else:
                 self.raw = self.__string_to_int(address)
         else:
@@ -240,7 +245,12 @@ class GroupAddress(BaseAddress):
             self.raw = address.raw
         elif isinstance(address, str):
             if address.isdecimal():
-                self.raw = int(address)
+                try:
+                    self.raw = int(address)
+                except ValueError as err:  # more digits than int() converts
+                    raise CouldNotParseAddress(
+                        address, message="Address out of range (0..65535)"
+                    ) from err
             else:
                 self.raw = self.__string_to_int(address)
         else:
